@@ -856,13 +856,15 @@ pub fn main(args: &util::Args) {
             }
         }
         // minimised past failures
-        if let Ok(rd) = std::fs::read_dir(util::verif_root().join("corpus").join("C06")) {
-            let mut files: Vec<_> = rd.filter_map(|e| e.ok().map(|e| e.path())).filter(|p| p.extension().is_some_and(|x| x == "gom")).collect();
+        // (+ the coverage witnesses `corpus/C01/cov-*.gom`: shapes no generator produced, tools/coverage_audit.py)
+        for sub in ["C06", "C01"] {
+            let Ok(rd) = std::fs::read_dir(util::verif_root().join("corpus").join(sub)) else { continue };
+            let mut files: Vec<_> = rd.filter_map(|e| e.ok().map(|e| e.path())).filter(|p| p.extension().is_some_and(|x| x == "gom")).filter(|p| sub != "C01" || p.file_name().is_some_and(|n| n.to_string_lossy().starts_with("cov-"))).collect();
             files.sort();
             let dir = util::scratch_dir("c06c");
             for f in files {
                 let Ok(src) = std::fs::read_to_string(&f) else { continue };
-                let id = format!("corpus:C06/{}", f.file_name().unwrap().to_string_lossy());
+                let id = format!("corpus:{}/{}", sub, f.file_name().unwrap().to_string_lossy());
                 let path = dir.join("main.gom");
                 let _ = std::fs::write(&path, &src);
                 match typecheck(&path, &src) {
@@ -909,6 +911,7 @@ pub fn main(args: &util::Args) {
                 wildcard_arrays: false,
                 nested_patterns: true,
                 src_forms: true,
+                cov_shapes: i % 5 == 2,
                 ..Default::default()
             };
             let (src, feats) = crate::progen::gen_program(&mut rng, cfg);
